@@ -66,7 +66,7 @@ class Spec:
     size: Callable[[Any], int] = None         # for choosing the smaller counterexample
     fixtures: Callable[[], List[Any]] = None  # extra fixed cases for the replay tier
     extra: Callable[[str, int], Dict] = None  # (tier, seed) -> {'failures': [...], 'coverage': {...}}
-    shrink_budget: int = 400
+    shrink_budget: int = 150
     jobs: int = 16
     sample_fn: Callable[[Any], Any] = None    # compact sample for evidence
 
@@ -119,10 +119,11 @@ def _worker(args):
                 feats = spec.features(case)
                 for f in feats:
                     st['features'][f] = st['features'].get(f, 0) + 1
-                if spec.nontrivial(case, feats):
+                nt = spec.nontrivial(case, feats)
+                if nt:
                     st['nontrivial'].add(hashlib.sha1(spec.key(case).encode()).hexdigest()[:16])
                 fk = frozenset(feats)
-                if fk not in seen_feat and len(st['samples']) < 4:
+                if nt and fk not in seen_feat and len(st['samples']) < 4:
                     seen_feat.add(fk)
                     st['samples'].append((spec.sample_fn or spec.describe)(case))
                 for f in fails:
@@ -160,7 +161,7 @@ def _worker(args):
 
 
 def _write_replay(pid, clause, desc, detail) -> str:
-    d = os.path.join(ROOT, 'replays', 'found', pid)
+    d = os.path.join(ROOT, 'replays', os.environ.get('VERIF_FOUND', 'found'), pid)
     os.makedirs(d, exist_ok=True)
     blob = json.dumps({'property': pid, 'clause': clause, 'detail': detail, 'case': desc},
                       indent=1, default=str, sort_keys=True)
@@ -334,8 +335,10 @@ def main(pid: str, argv=None):
     ev = {'property_id': pid, 'tier': args.tier, 'seed': seedv, 'level': spec.level,
           'coverage': cov, 'assumptions': spec.assumptions, 'wall_s': round(wall, 2),
           'violations': len(violations)}
-    os.makedirs(os.path.join(ROOT, 'evidence'), exist_ok=True)
-    with open(os.path.join(ROOT, 'evidence', pid + '.json'), 'w') as f:
+    evdir = os.path.join(ROOT, 'evidence') if 'VERIF_FOUND' not in os.environ else \
+        os.path.join(ROOT, 'replays', os.environ['VERIF_FOUND'], 'evidence')
+    os.makedirs(evdir, exist_ok=True)
+    with open(os.path.join(evdir, pid + '.json'), 'w') as f:
         json.dump(ev, f, indent=1, default=str)
     print("%s %s: %d evaluations, %d distinct non-trivial, %d violation bucket(s), %.1fs" %
           (pid, args.tier, cov['evaluations'], cov['distinct_nontrivial'], len(violations), wall))
